@@ -2,7 +2,18 @@ import HmfVerif.Model.CacheIO
 import HmfVerif.Model.RegistryIO
 import HmfVerif.Model.HeapIO
 import HmfVerif.Model.FunctionalIO
+import HmfVerif.Model.ExprIO
+import HmfVerif.Gen.ExprFits
+import HmfVerif.Spec.Fits
 /-! Driver: one request per line on stdin, one canonical answer per line on stdout. -/
+
+def exprTables : List (String × List (String × Hmf.E)) :=
+  [("Fits", Hmf.Gen.Fits.table), ("SpecFits", Hmf.Spec.Fits.table)]
+
+def lookupTerm (name : String) : Option Hmf.E :=
+  match name.splitOn "/" with
+  | [t, n] => (exprTables.find? (·.1 == t)).bind fun tb => (tb.2.find? (·.1 == n)).map (·.2)
+  | _ => none
 
 def dispatch (line : String) : String :=
   let line := line.trimAscii.toString
@@ -10,6 +21,7 @@ def dispatch (line : String) : String :=
   else if line.startsWith "REG " || line.startsWith "PARAMS " then Hmf.Reg.IO.handle line
   else if line.startsWith "HEAP " then Hmf.Heap.IO.handle line
   else if line.startsWith "COMBOS " || line.startsWith "ORDER " then Hmf.Fn.IO.handle line
+  else if line.startsWith "EVALV " then Hmf.ExprIO.handle lookupTerm line
   else "bad-request"
 
 partial def loop (h : IO.FS.Stream) (out : IO.FS.Stream) : IO Unit := do
